@@ -30,10 +30,20 @@ def bounded_task():
     return Task(f"{PROP}.Bd.parser", PROP, "real parser", run)
 
 
+def _constructor():
+    from bounded import c04
+    c = access.constructor_block(PROP)
+    c.search_fn = c04.constructor_cases
+    return c
+
+
+_constructor.__name__ = "constructor_block"
+
+
 def build(tier, seed):
     set_tier(tier)
     tasks = [a_task(PROP, access.is_interface_procedure), a_task(PROP, access.permission_getter), a_task(PROP, access.access_tracking),
-             a_task(PROP, access.process_attribs_item),
+             a_task(PROP, access.process_attribs_item), a_task(PROP, _constructor),
              Task(f"{PROP}.S.constructors", PROP, "FortranContainer.__init__", lambda: access.constructor_call_sites(PROP)), bounded_task()]
     meta = {
         "trusted_base": TRUSTED_BASE,
